@@ -79,11 +79,11 @@ int main(void)
 
 	int r = make_pms_rsa(&cctx, prf);
 
-	if (nlen < 59) {
-		CHECK(r == -BR_ERR_X509_WEAK_PUBLIC_KEY && pub_calls == 0 && cm_calls == 0, "a modulus too short for a 48-byte premaster is refused");
-		WITNESS_POINT("short modulus");
-		return 0;
-	}
+#if (NL - NZ) < 59
+	CHECK(r == -BR_ERR_X509_WEAK_PUBLIC_KEY && pub_calls == 0 && cm_calls == 0, "a modulus too short for a 48-byte premaster is refused");
+	WITNESS_POINT("short modulus");
+	return 0;
+#else
 	CHECK(pub_calls == 1 && pub_buf == cctx.eng.pad && pub_len == nlen && pub_key == &the_key.key.rsa, "one public-key operation, over the pad, with the true modulus length and the validator's key");
 	CHECK(r == (pub_ok ? (int)nlen : -BR_ERR_LIMIT_EXCEEDED), "returns the message length, or an error when the public-key operation fails");
 	CHECK(pub_block[0] == 0x00 && pub_block[1] == 0x02 && pub_block[nlen - 49] == 0x00, "PKCS#1 v1.5 type 2 block: 00 02 PS 00 premaster");
@@ -94,4 +94,5 @@ int main(void)
 	for (int i = 0; i < 46; i++) CHECK(cm_pms[2 + i] == drbg_stream[i], "46 premaster bytes come from the engine's DRBG");
 	if (pub_ok) { WITNESS_POINT("message built"); } else { WITNESS_POINT("public-key operation failed"); }
 	return 0;
+#endif
 }
